@@ -336,7 +336,11 @@ fn run_one(
     ins: Vec<(usize, Vec<Op>)>, label: String,
     replay: Option<(Vec<Op>, Option<Vec<Option<String>>>)>,
 ) -> bool {
-    let cfg = WorldCfg::new(args.work.join(format!("h{idx}")));
+    let mut cfg = WorldCfg::new(args.work.join(format!("h{idx}")));
+    // every second case runs with ROAs in aggregated (per-ASN) mode: the
+    // roll moves another kind of object then
+    let aggregated = (idx + args.seed) % 2 == 1;
+    if aggregated { cfg.aggregate = (1, 1) }
     let mut script = forest();
     let n_setup = script.len();
     script.extend(roll_script(target, &ins));
@@ -347,7 +351,8 @@ fn run_one(
     };
     runner::run(r, args, RunCfg {
         idx, seed, world: cfg,
-        desc: json!({"target": target, "insertions": label, "seed": seed}),
+        desc: json!({"target": target, "insertions": label, "seed": seed,
+                     "aggregated_roas": aggregated}),
         script, n_setup, n_random: 0,
         profile: Profile::general(), replay, replay_steps, keep_dir: false,
     }, &mut m).clean
